@@ -872,7 +872,7 @@ def run_concrete(scenario, values):
     try:
         scenario(S)
     except Abort as a:
-        return {"failed": [], "aborted": str(a), "exception": None, "notes": S.notes, "used": S.used}
+        return {"failed": S.failed, "aborted": str(a), "exception": None, "notes": S.notes, "used": S.used}
     except Exception as e:  # noqa: BLE001
         exc = "".join(traceback.format_exception(e))[-3000:]
         S.failed.append({"label": "unexpected-exception:" + type(e).__name__, "info": exc})
